@@ -154,6 +154,32 @@ CLAIMED['C09'] = dict(
     note='Trusted: rustc MIR printer, mirsym, hash map as association list with distinct keys, handle abstraction, Z3.',
     ref='§4 C09')
 
+CLAIMED['C11'] = dict(
+    text='Decides with Z3 over the real MIR on a byte-addressed block memory (the list is built by the real alloc, optionally '
+         'forwarded once or twice by the real grow): C11.K1 List::push / insert / remove / pop are exactly the finite-sequence '
+         'operations for every length, capacity and index (element contents as an uninterpreted array, universally quantified '
+         'position), every read and write stays inside its allocation, out-of-range indices return OutOfBounds and change nothing; '
+         'C11.K2 the natives list.remove / list.insert / list[x] / list[x] = v for every f64 argument (NaN, infinities, fractions, '
+         'negative values): they succeed exactly for integral in-range x (negative x from the end where documented), perform exactly '
+         'the sequence operation, and otherwise raise leaving the receiver unchanged. Found and fixed F3 (capacity-0 growth wrote out '
+         'of bounds) and F15 (fractional / NaN indices truncated). Map, Tuple, String natives and the iterator adaptors are not yet '
+         'machine checked: this claim covers the List part of the property only.',
+    note='Trusted: rustc MIR printer and type-size printer, mirsym, block memory model (obl/memabs.py), f64::fract characterised by its '
+         'sign / zero / magnitude facts instead of bit-blasted, error construction (call_error) and format! abstracted, Z3 FP theory.',
+    ref='§4 C11')
+
+CLAIMED['C10'] = dict(
+    text='Decides with Z3 over the real MIR on the block memory model: C10 part of the list kernels (shared with C11.K1): after any push / '
+         'insert / remove / pop, including ones that grow the list, an alias holding the original address (before one or two '
+         'forwardings) sees the same length and reads / writes the same element cells as the live vector, and the forwarded block '
+         'stays well formed; C10.K1 Value == and Hash of a list reached through an alias taken before it grew: reported as the '
+         'known finding F7 (identity is the raw address; aliases become unequal and map keys are lost after growth). Identity of '
+         'maps / instances under mutation (no forwarding involved) and the partial root rewriting (scan_roots) are not yet machine '
+         'checked.',
+    note='Trusted: rustc MIR printer, mirsym, block memory model, Z3. F7 is a genuine defect recorded in known_findings.json '
+         '(repair needs a growth-stable identity; not a small change).',
+    ref='§4 C10')
+
 NOT_APPLICABLE = {
     'C08': 'global liveness of the fiber scheduler needs the running Vm (DESIGN.md §6); no bounded symbolic encoding of the real scheduler is within reach',
 }
